@@ -943,7 +943,9 @@ Section Cover.
       { rewrite <- (map_id (k_watches k)) at 2. apply map_ext_in. intros x Hx.
         destruct (N.eqb (kw_wd x) (kw_wd kw)); [|reflexivity].
         rewrite <- (wi_mask _ _ _ I x Hx). now destruct x. }
-      eexists _, _, _. split; [reflexivity|]. cbn [wfp pfw mvf calls k_queue k_next_cookie].
+      eexists _, _, _. split; [reflexivity|].
+      rewrite (ReaderFixProofs.unlabel_same C _ (kw_wd kw) (f_path e)) by exact Pe'.
+      cbn [wfp pfw mvf calls k_queue k_next_cookie].
       assert (Lw := fun x => alookup_aset_same_w _ _ (wfp r) x We').
       assert (Lp := fun x => alookup_aset_same_p _ _ (pfw r) x Pe').
       split; [|split; [reflexivity|split; [reflexivity|split; [reflexivity|split; [|split]]]]].
@@ -961,7 +963,13 @@ Section Cover.
     - (* a new watch *)
       assert (Hnone : forall x, In x (k_watches k) -> kw_ino x <> f_ino e).
       { intros x Hx. unfold watch_of_ino in Ew. rewrite find_none_iff in Ew. apply Ew in Hx. now apply N.eqb_neq in Hx. }
-      eexists _, _, _. split; [reflexivity|]. cbn [wfp pfw mvf calls k_queue k_next_cookie].
+      eexists _, _, _. split; [reflexivity|].
+      (* the new descriptor is not a key of _path_for_wd: every key is a live watch, below the counter *)
+      assert (Hfr : alookup N.eqb (k_next_wd k) (pfw r) = None).
+      { destruct (alookup N.eqb (k_next_wd k) (pfw r)) as [x0|] eqn:E; [|reflexivity].
+        destruct (wi_pfw _ _ _ I _ _ E) as (kw0 & H0 & E0). apply (wi_lt _ _ _ I) in H0. lia. }
+      rewrite (ReaderFixProofs.unlabel_fresh C _ (k_next_wd k) (f_path e)) by exact Hfr.
+      cbn [wfp pfw mvf calls k_queue k_next_cookie].
       set (nw := {| kw_wd := k_next_wd k; kw_ino := f_ino e; kw_mask := c_mask C |}).
       assert (Hold : forall kw0, In kw0 (k_watches k) -> kw_wd kw0 <> k_next_wd k).
       { intros kw0 H0. apply (wi_lt _ _ _ I) in H0. lia. }
